@@ -68,7 +68,10 @@ func execute(t *testing.T, c Case) (kind, detail string) {
 			}
 		}
 		var otherApp, otherTgt *world.Endpoint
-		if c.Other != "none" {
+		if c.Other == "refused-attempt" {
+			// handled below: the sibling is a connection ATTEMPT for a channel the server does not offer,
+			// made while the connection under test is open
+		} else if c.Other != "none" {
 			otherApp = w.OpenApp("y", func(off int) byte { return world.Pattern(0x55, off) })
 			step()
 			otherTgt = w.Chans[1].Target(0)
@@ -95,6 +98,13 @@ func execute(t *testing.T, c Case) (kind, detail string) {
 		closer, other := app, tg
 		if c.Closer == "target" {
 			closer, other = tg, app
+		}
+		if c.Other == "refused-attempt" {
+			ra := w.OpenApp("no-such-channel", nil)
+			step()
+			bubble.Advance(2 * time.Second)
+			ra.Close()
+			step()
 		}
 		if c.Quiet > 0 {
 			// a long-lived, idle logical connection: time passes before anything is written
@@ -193,7 +203,7 @@ func execute(t *testing.T, c Case) (kind, detail string) {
 					}
 				}
 				allowed := 0
-				if c.Other != "none" {
+				if c.Other != "none" && c.Other != "refused-attempt" {
 					allowed = 2
 				}
 				if n > allowed {
@@ -204,7 +214,7 @@ func execute(t *testing.T, c Case) (kind, detail string) {
 				kind, detail = "never-terminates", "the client's handler for the finished logical connection never returned"
 			}
 		}
-		if kind == "" && c.Other != "none" {
+		if kind == "" && c.Other != "none" && c.Other != "refused-attempt" {
 			a, g := otherApp.Obs(), otherTgt.Obs()
 			if a.EOF || a.Err != "" || g.EOF || g.Err != "" {
 				kind, detail = "collateral-close", fmt.Sprintf("the other logical connection ended too: app=%v tgt=%v", a, g)
@@ -247,7 +257,7 @@ func cases(thorough bool) []Case {
 					if pos == "halfclose-stalled" && (n > 40000 || n == 4096) {
 						continue
 					}
-					for _, other := range []string{"none", "idle", "busy"} {
+					for _, other := range []string{"none", "idle", "busy", "refused-attempt"} {
 						if other == "busy" && !thorough && x.sec != "plain" {
 							continue
 						}
